@@ -807,6 +807,44 @@ func checkC12(w *World, r *Report) {
 	}
 	r.check(okApp, "C12.flag", m.EVAL, "application ignores the macro flag", token.NoPos, "no use of IsMacro/GetMacro", "function application depends on the macro flag")
 	ruleQQ(m, r, e)
+	// the builtins the transform generates calls to must not write their arguments' storage: a template
+	// spliced twice must not influence itself (C02's ownership analysis restricted to those builtins)
+	r.rule("C12.splice-fresh", "the builtins the quasiquote transform generates calls to (cons, concat, vec) only write storage allocated in their own activation, so the elements of a spliced value are copied into the result and two expansions never share a tail")
+	gen := map[string]bool{}
+	for _, fn := range []*ssa.Function{m.quasiquote, m.qqLoop} {
+		for _, b := range fn.Blocks {
+			for _, in := range b.Instrs {
+				if c, ok := in.(*ssa.Call); ok && c.Call.StaticCallee() != nil && c.Call.StaticCallee().Name() == "NewList" {
+					for _, el := range sliceLiteralElems(c.Call.Args[0]) {
+						if s := symbolLiteral(el); s != "" {
+							gen[s] = true
+						}
+					}
+				}
+			}
+		}
+	}
+	var genFns []*ssa.Function
+	for _, fn := range w.registeredFuncs() {
+		if gen[strings.ReplaceAll(strings.ToLower(fn.Name()), "_", "-")] {
+			genFns = append(genFns, fn)
+		}
+	}
+	reachGen := w.reachableFrom(genFns)
+	nsf := ruleContainerWrites(w, r, e, "C12.splice-fresh", func(fn *ssa.Function) bool { return reachGen[fn] && libraryPkg(fnPkgPath(fn)) }, false)
+	r.floor("C12.splice-fresh", "container writes in the builtins generated by quasiquote", nsf, 2)
+	// expansion result is re-validated before the dispatch indexes it (a macro may expand to () or to a non-list)
+	r.rule("C12.post-expand", "between macro expansion and the special-form dispatch every index / assertion on the expanded form is guarded (a macro may expand to the empty list or to a non-list)")
+	aud := newAudit(w, e, r, "C12.post-expand")
+	aud.closure = []*ssa.Function{m.EVAL}
+	aud.inClos[m.EVAL] = true
+	aud.exempt = exemptionsC04
+	aud.only = func(b *ssa.BasicBlock) bool {
+		// blocks of the loop before the special-form dispatch (and not stepping code)
+		return m.header.Dominates(b) && m.regionOf(b) == "" && !m.stepBlocks[b]
+	}
+	aud.run()
+	r.floor("C12.post-expand", "guarded uses of the expanded form before the dispatch", r.count("C12.post-expand"), 8)
 	r.Assumptions = append(r.Assumptions, "call-equals-expansion as a relation between runs and the algebra of the quasiquote transform beyond its dispatch shape are not decided")
 }
 
